@@ -68,6 +68,19 @@ def run(ctx, report):
         if len(extra) < 4 and _re.search(r'N4\*[^*~]*\*[A-Z]{2}\*', text):
             extra.append((name + '+badstate', _re.sub(r'(N4\*[^*~]*\*)[A-Z]{2}\*', r'\1QQ*', text, count=1)))
     docs += extra
+    # documents of DIFFERENT guides in which every loop occurs twice (beyond its limit where the limit is 1): what one map
+    # says about a loop (repeat limits, usage, counts) must not leak into the validation of a document of another map
+    import confgen
+    import walk_gen
+    twice = []
+    for name in (walk_gen.DOC_MAPS if ctx['tier'] == 'thorough' else ['837.4010.X098.A1.xml', '837.5010.X222.A1.xml', '278.4010.X094.A1.xml',
+                                                                      '837.4010.X096.A1.xml', '270.4010.X092.A1.xml', '271.4010.X092.A1.xml']):
+        try:
+            segs, d, _sel = confgen.document(rng, name, ('~', '*', ':'), n_st=1, p_seg=0.1, p_loop=0.5, max_segs=160, loop_twice=True)
+        except Exception:  # noqa
+            continue
+        twice.append(('twice:' + name, docgen.encode(segs, d, '')))
+    report.count('docs:every-loop-twice', len(twice))
     n_seq = 40 if ctx['tier'] == 'thorough' else 6
     report.rule = ('sequences of 2-10 documents (the repository\'s own test corpus of 834/835/837/270-style documents, valid and '
                    'faulty, 4010 and 5010, plus generated envelopes and variants with an unknown state code) processed in ONE interpreter — fresh and reused params, charset and exclude_external_codes varying from document to document, the same '
@@ -78,6 +91,8 @@ def run(ctx, report):
     import pyx12.params
     for s in range(n_seq):
         seq = [rng.choice(docs) for _ in range(rng.randint(2, 10))]
+        if twice and s % 2 == 0:
+            seq = rng.sample(twice, min(len(twice), rng.randint(2, 4))) + seq[:3]
         if rng.random() < 0.5:
             i = rng.randrange(len(seq))
             seq[i:i] = [seq[i]] * rng.choice([1, 2])
